@@ -238,6 +238,9 @@ class Ctx:
     self.cur_func = unit.contract.qualname if unit else ''
     self.depth = 0
     self.memo = {}
+    self.epoch = 0
+    self.frozen = {}        # oid -> why (objects owned by a stored result)
+    self.frozen_locals = set()
 
   # -- symbols ----------------------------------------------------------
   def sym(self, base):
@@ -365,6 +368,7 @@ class Ctx:
     self.next_oid += 1
     rec = ObjRec(cls, symbolic)
     rec.fresh = not symbolic
+    rec.epoch = self.epoch
     self.objects[oid] = rec
     obj = VObj(oid, cls)
     if symbolic:
@@ -398,6 +402,10 @@ class Ctx:
 
   def set_field(self, obj, name, value):
     rec = self.objects[obj.oid]
+    if obj.oid in self.frozen:
+      self.oblige(z3.BoolVal(False),
+                  'no write to %s.%s of an object owned by a stored result' %
+                  (obj.cls, name), 'frame', ('C04', 'C10'))
     cs = self.unit.world.class_spec(obj.cls)
     if cs is not None and name in cs.fields:
       value = conform(self, value, cs.fields[name])
@@ -423,6 +431,20 @@ def conform(ctx, v, shape):
     return VOpt(False, conform(ctx, v, shape.inner))
   if isinstance(shape, TReal) and isinstance(v, (VInt, VBool)):
     return VReal(z3.ToReal(num_term(v)), np=shape.np)
+  if isinstance(shape, TOpaque) and shape.okind == 'Key' and isinstance(
+      v, (VInt, VBool)):
+    return VOpaque(z3.Function('key_int', z3.IntSort(), KeySort)(num_term(v)),
+                   'Key')
+  if isinstance(shape, TOpaque) and shape.okind == 'Item' and isinstance(
+      v, VObj):
+    return VOpaque(z3.Function('item_of_obj', z3.IntSort(), ItemSort)(
+        z3.IntVal(v.oid)), 'Item')
+  if isinstance(shape, TSeq) and isinstance(v, VTuple) and v.tname == 'list' and (
+      not v.items):
+    return VSeq(z3.IntVal(0), z3.Function(ctx.sym('lst.at'), z3.IntSort(),
+                                          shape.esort), shape.esort,
+                z3.EmptySet(shape.esort), dupfree=False,
+                sid=z3.Int(ctx.sym('lst.sid')))
   if isinstance(shape, TTuple) and isinstance(v, VTuple) and len(
       shape.items) == len(v.items):
     return VTuple([conform(ctx, i, s) for i, s in zip(v.items, shape.items)],
@@ -1001,6 +1023,19 @@ class Exec:
       if k.arg is None:
         self.unsupported(node, '**kwargs')
       kwargs[k.arg] = self.eval_arg(k.value, env)
+    c = self.ctx.unit.contract
+    if c is not None and c.at_calls and env.qualname == c.qualname:
+      key = ast.unparse(node.func)
+      if key in c.at_calls:
+        from mmverif.engine import loops as loopmod
+        vals = dict(loopmod.visible_vars(env))
+        ns = NS(self.ctx, vals, heap=None, old=self.ctx.entry_old_ns,
+                extra={'args': args, 'kwargs': kwargs})
+        self.ctx.cur_line = node.lineno
+        for cl in c.at_calls[key]:
+          g = cl.fn(ns)
+          self.ctx.oblige(g, cl.label, 'callsite', cl.props)
+          self.ctx.assume(g)
     return self.call(fn, args, kwargs, node, env)
 
   def eval_arg(self, a, env):
@@ -1227,6 +1262,13 @@ class Exec:
       result = contract.result.fresh(ctx, 'r_' + callee.split('.')[-1])
     vals = dict(bound)
     vals['result'] = result
+    for path, fn in contract.binds.items():
+      parts = path.split('.')
+      obj = bound[parts[0]]
+      for f in parts[1:-1]:
+        obj = self.deref(ctx.get_field(self.deref(obj, path), f), path)
+      ctx.objects[self.deref(obj, path).oid].fields[parts[-1]] = unwrap(
+          fn(NS(ctx, dict(bound), heap=None, old=old_ns)))
     post_ns = NS(ctx, vals, heap=None, old=old_ns)
     for cl in contract.ensures:
       ctx.assume(cl.fn(post_ns))
